@@ -580,7 +580,7 @@ func v14hPartitionScanRun(n, kmax, sched, pat int, desc bool) {
 func VerifH_C14_O11_partition_scan_order() { v14hPartitionScanOrder(3, 4) }
 
 // verif:desc C08-O6s the parallel scan of a partition's overlapping objects is independent of the goroutine schedule: same run and same assertions as VerifH_C14_O11_partition_scan_order (two objects written by the real data.Writer, scanned by the real meta.newObjectsScanner = one zngio scanner + statScanner per object under merge.New with lake.ImportComparator, pulled to end of stream, then once more with the object list reversed), under EVERY schedule with at most 1 preemption (thorough tier: 2) at the channel operations, selects, closes, atomics, map accesses, lock/once/WaitGroup operations and goroutine starts of the real merge pullers, zngio scanner/parser/worker goroutines and the consumer, with a bounded free choice of which runnable goroutine continues; in addition the merged stream is exactly THE sequence the values determine (pool-key order, null/missing largest, ties by value bytes in the pool's direction): every value once, intact, same order under every schedule and for both object list orders, every object reader closed at end of stream
-// verif:bounds 2 objects of 3 values (thorough tier: 2 values, the first two of each, and a single scan) with concrete keys: A=1,3,(no key field) B=2,3,4, or A=2,2,null B=2,4,null (Choose); pool order asc and desc; no pruner, no filter; the native replay repeats the experiment 200 times; preemption bound 1 (thorough: 2)
+// verif:bounds 2 objects of 3 values (thorough tier: 2 values, the first two of each, and a single scan) with concrete keys: A=1,3,(no key field) B=2,3,4, or A=2,2,null B=2,4,null (Choose); pool seek stride 1, so data.Writer ends the stream after every value with a key: an object is several ZNG frames and each scanner delivers several batches whose buffers and batch objects are recycled through the pools while the merge holds values of them (VerifH_C14_O11: default stride, one frame per object); pool order asc and desc; no pruner, no filter; the native replay repeats the experiment 200 times; preemption bound 1 (thorough: 2)
 // verif:outside as VerifH_C14_O11_partition_scan_order except that schedules are explored up to the bound; symbolic keys (VerifH_C14_O11_partition_scan_order); field/slice loads and stores are not preemption points (data-race freedom between sync points is assumed, not checked); sync.Pool is a per-path LIFO shared by all goroutines; the engine's zngio scanner has one worker per scanner
 func VerifH_C08_O6s_partition_scan_schedules() {
 	if verif.Thorough() {
